@@ -107,12 +107,20 @@ def run_scenarios(ctx, scs, label):
         s = scs[m["scenario"]]
         init = "empty" if s["prefix"] == 0 and s["foreign"] == 0 else ("prefix" if s["foreign"] == 0 else ("unrelated" if s["prefix"] == 0 else "prefix+foreign"))
         groups.setdefault((m["what"], init, s["small"]), []).append(m)
+    never = None
     for (what, init, small), ms in groups.items():
         m = ms[0]
         s = scs[m["scenario"]]
         text = "%s (%d scenarios) follower-initially=%s logs=%s steps=%s: %s" % (what, len(ms), init, "below-window" if small else "above-window",
                                                                                  s["steps"], m["detail"])
+        if what == "never":
+            # the statement says what a follower that REPORTS caught-up must hold; that it eventually reports it is the
+            # specification's EventuallyCaughtUp, not part of C06: such a scenario is not judged
+            never = never or text
+            continue
         common.report(ctx, "c06-%s-%s" % (what, init), text, {"kind": "follow-scenario", "scenario": s})
+    if never and not ctx.violations:
+        raise common.Infra("not judged - " + never)
     return st
 
 
